@@ -12,8 +12,8 @@
    [schema_at_least declared_schema a = true], all JSON documents and all worlds
    (existing files and their modes, umask, project files, glob matcher, success of the
    analysis and of the spec library). *)
-From Gleece Require Import Base.Bytes Model.Config Proofs.ConfigProofs.
 From Coq Require Import String.
+From Gleece Require Import Base.Bytes Model.Config Proofs.ConfigProofs Model.ConfigLoad Proofs.ConfigLoadProofs.
 Open Scope list_scope.
 
 (* what "violates a declared constraint" means: some rule list of the schema fails on some
@@ -202,6 +202,51 @@ Example C20_nonvacuous :
   forallb (fun c => is_nil (written (cmd demo_oracle snapshot_schema CBoth demo_world c))) corruptions = true.
 Proof. exact demo_nonvacuous. Qed.
 
+(* The loading step as a value, and several loads in one process (Model/ConfigLoad.v).
+   [loaded_honours doc l]: the value [l] handed to the generators says what the accepted
+   document [doc] says and nothing else (zero value = absent; a field with a default may be
+   absent or hold the default).  What it guarantees: the same glob expressions and package
+   name, defaults included, hence the same contributing controllers in every world. *)
+Theorem C20_loaded_honours_effective : forall doc l,
+  loaded_honours doc l = true -> globs_of l = globs_of doc /\ package_of l = package_of doc.
+Proof. exact loaded_honours_effective. Qed.
+
+Theorem C20_loaded_honours_ctrls : forall doc l w,
+  loaded_honours doc l = true -> selected_ctrls w l = selected_ctrls w doc.
+Proof. exact loaded_honours_ctrls. Qed.
+
+(* the code that exists decodes every file into a fresh zero value: in a process that loads a
+   history of documents, each result is the one a process loading that document alone gives *)
+Theorem C20_loads_history_free : forall o a pre post d,
+  nth_error (run_loads o a (pre ++ d :: post)) (List.length pre) = Some (load1 o a d) /\
+  run_loads o a [d] = [load1 o a d].
+Proof. exact run_loads_history_free. Qed.
+
+Theorem C20_load1_spec : forall o a cfg,
+  (validate o a cfg = Valid -> load1 o a cfg = (Valid, Some cfg)) /\
+  (validate o a cfg <> Valid -> load1 o a cfg = (validate o a cfg, None)).
+Proof. exact load1_spec. Qed.
+
+Example C20_loads_nonvacuous :
+  loaded_honours demo_cfg demo_cfg = true /\
+  loaded_honours demo_no_globs demo_no_globs = true /\
+  loaded_honours demo_no_globs demo_default_globs = true /\
+  loaded_honours demo_no_globs demo_two_globs = false /\
+  loaded_honours demo_two_globs demo_no_globs = false /\
+  loaded_honours demo_cfg (with_member k_routes (s "packageName") (JStr (s "other")) demo_cfg) = false /\
+  loaded_honours demo_cfg (with_member k_routes (s "validateResponsePayload") (JBool true) demo_cfg) = false /\
+  loaded_honours demo_cfg (with_member k_routes (s "validateResponsePayload") (JBool false) demo_cfg) = true /\
+  selected_ctrls demo_world_all demo_no_globs = [s "MainController"; s "DecoyController"] /\
+  selected_ctrls demo_world_all demo_cfg = [s "MainController"] /\
+  map fst (run_loads demo_oracle snapshot_schema [demo_two_globs; demo_no_globs]) = [Valid; Valid] /\
+  prop_C20_loads
+    [ {| lo_doc := demo_two_globs; lo_verdict := Valid; lo_value := Some demo_two_globs; lo_after := Some demo_two_globs |};
+      {| lo_doc := demo_no_globs; lo_verdict := Valid; lo_value := Some demo_no_globs; lo_after := Some demo_no_globs |} ] = true /\
+  prop_C20_loads
+    [ {| lo_doc := demo_two_globs; lo_verdict := Valid; lo_value := Some demo_two_globs; lo_after := Some demo_two_globs |};
+      {| lo_doc := demo_no_globs; lo_verdict := Valid; lo_value := Some demo_two_globs; lo_after := Some demo_two_globs |} ] = false.
+Proof. exact loads_nonvacuous. Qed.
+
 Print Assumptions C20_violates_spec.
 Print Assumptions C20_schema_at_least_sound.
 Print Assumptions C20_names_fields.
@@ -225,3 +270,8 @@ Print Assumptions C20_scheme_shape_refuted.
 Print Assumptions C20_perms_unfixed_refuted.
 Print Assumptions C20_obligation_on_snapshot.
 Print Assumptions C20_nonvacuous.
+Print Assumptions C20_loaded_honours_effective.
+Print Assumptions C20_loaded_honours_ctrls.
+Print Assumptions C20_loads_history_free.
+Print Assumptions C20_load1_spec.
+Print Assumptions C20_loads_nonvacuous.
